@@ -161,6 +161,8 @@ def run(tier, replay):
                           "stallms": 0, "grep": True, "max": mx, "catlimit": 2, "seed": 31 + k, "scale": 100, "lines": [[900, 400]], "shape": "CmdsOne2",
                           "nofinalnl": k == 1, "drainus": 0})
         for c in cases:
+            c.setdefault("prelude", rng.random() < 0.5)
+        for c in cases:
             c.setdefault("max", rng.choice([0, 0, 1, 3]) if c.get("grep") else 0)
         for c in cases:
             if "drainus" not in c:
